@@ -49,6 +49,9 @@ type toyState struct {
 	vals   map[party.ID][]byte       // values revealed in round 2
 	gotB   map[int]map[party.ID]bool // round -> sender -> broadcast handed to the round
 	gotP   map[int]map[party.ID]bool // round -> sender -> p2p message handed to the round
+	// every broadcast also carries a fresh, unverifiable nonce that enters the result: two versions of
+	// one broadcast are both valid, and parties that used different versions end with different results
+	nonces map[int]map[party.ID][]byte
 }
 
 func toyTag(kind string, r int, v []byte, to party.ID) []byte {
@@ -68,6 +71,7 @@ func (c *toyP) RoundNumber() round.Number { return c.n }
 type toyB struct {
 	round.NormalBroadcastContent
 	V []byte
+	W []byte
 	n round.Number
 }
 
@@ -76,6 +80,7 @@ func (c *toyB) RoundNumber() round.Number { return c.n }
 type toyRB struct {
 	round.ReliableBroadcastContent
 	V []byte
+	W []byte
 	n round.Number
 }
 
@@ -126,17 +131,17 @@ func (r *toyRound) expected(kind string, from, to party.ID) []byte {
 }
 
 func (r *toyRoundB) StoreBroadcastMessage(msg round.Message) error {
-	var v []byte
+	var v, w []byte
 	switch b := msg.Content.(type) {
 	case *toyB:
-		v = b.V
+		v, w = b.V, b.W
 	case *toyRB:
-		v = b.V
+		v, w = b.V, b.W
 	default:
 		return round.ErrInvalidContent
 	}
-	if len(v) != 32 {
-		return errors.New("toy: broadcast value must be 32 bytes")
+	if len(v) != 32 || len(w) != 16 {
+		return errors.New("toy: broadcast value must be 32 bytes, nonce 16")
 	}
 	if r.n == 2 {
 		// round 2's broadcast reveals the sender's value
@@ -144,8 +149,20 @@ func (r *toyRoundB) StoreBroadcastMessage(msg round.Message) error {
 	} else if want := r.expected("b", msg.From, ""); want == nil || !bytes.Equal(want, v) {
 		return fmt.Errorf("toy: wrong broadcast value from %s in round %d", msg.From, r.n)
 	}
+	// only a reliable broadcast that is followed by a further round may carry a free nonce (that is what
+	// the echo mechanism protects); elsewhere the "nonce" is derived and checked like everything else
+	if !r.freeNonce(r.n) {
+		if want := toyTag("w", r.n, r.st.vals[msg.From], "")[:16]; !bytes.Equal(want, w) {
+			return fmt.Errorf("toy: wrong derived nonce from %s in round %d", msg.From, r.n)
+		}
+	}
 	r.st.gotB[r.n][msg.From] = true
+	r.st.nonces[r.n][msg.From] = append([]byte{}, w...)
 	return nil
+}
+
+func (r *toyRound) freeNonce(n int) bool {
+	return n >= 2 && r.st.shapes[n-2].Reliable && n < len(r.st.shapes)+1
 }
 
 func (r *toyRound) VerifyMessage(msg round.Message) error {
@@ -206,21 +223,35 @@ func (r *toyRound) Finalize(out chan<- *round.Message) (round.Session, error) {
 		for _, id := range r.PartyIDs() {
 			fmt.Fprintf(h, "%s=%x;", id, r.st.vals[id])
 		}
+		for rn := 2; rn <= len(r.st.shapes)+1; rn++ {
+			for _, id := range r.PartyIDs() {
+				fmt.Fprintf(h, "%d/%s=%x;", rn, id, r.st.nonces[rn][id])
+			}
+		}
 		return r.ResultRound(ToyResult(h.Sum(nil))), nil
 	}
 	sh := r.st.shapes[next-2]
 	r.st.gotB[next] = map[party.ID]bool{}
 	r.st.gotP[next] = map[party.ID]bool{}
+	r.st.nonces[next] = map[party.ID][]byte{}
 	if sh.Bcast {
 		v := toyTag("b", next, r.st.own, "")
 		if next == 2 {
 			v = r.st.own
 		}
+		w := toyTag("w", next, r.st.own, "")[:16]
+		if r.freeNonce(next) {
+			w = make([]byte, 16)
+			if _, err := rand.Read(w); err != nil {
+				return r, err
+			}
+		}
+		r.st.nonces[next][r.SelfID()] = w
 		var content round.Content
 		if sh.Reliable {
-			content = &toyRB{V: v, n: round.Number(next)}
+			content = &toyRB{V: v, W: w, n: round.Number(next)}
 		} else {
-			content = &toyB{V: v, n: round.Number(next)}
+			content = &toyB{V: v, W: w, n: round.Number(next)}
 		}
 		if err := r.BroadcastMessage(out, content); err != nil {
 			return r, err
@@ -257,7 +288,7 @@ func StartToy(selfID party.ID, ids []party.ID, shapes []ToyShape) protocol.Start
 		if err != nil {
 			return nil, err
 		}
-		st := &toyState{shapes: shapes, vals: map[party.ID][]byte{}, gotB: map[int]map[party.ID]bool{}, gotP: map[int]map[party.ID]bool{}}
+		st := &toyState{shapes: shapes, vals: map[party.ID][]byte{}, gotB: map[int]map[party.ID]bool{}, gotP: map[int]map[party.ID]bool{}, nonces: map[int]map[party.ID][]byte{}}
 		return &toyRound{Helper: helper, n: 1, st: st}, nil
 	}
 }
